@@ -61,6 +61,7 @@ class VLoop(asyncio.BaseEventLoop):
         self._vtime = 0.0
         self.executor_jobs = []  # [(future, func, args)]
         self.conn_requests = []  # [(future, protocol_factory, kind, args)]
+        self.attempt_times = []  # virtual time at which each connect attempt started
         self.all_writes = []
         self.writes_after_close = 0
         self.live_links = set()
@@ -91,11 +92,13 @@ class VLoop(asyncio.BaseEventLoop):
     async def create_connection(self, protocol_factory, host=None, port=None, **kwargs):
         fut = self.create_future()
         self.conn_requests.append((fut, protocol_factory, "tcp", (host, port)))
+        self.attempt_times.append(self.time())
         return await fut
 
     async def create_serial_connection(self, loop, protocol_factory, *args, **kwargs):
         fut = self.create_future()
         self.conn_requests.append((fut, protocol_factory, "serial", args))
+        self.attempt_times.append(self.time())
         return await fut
 
     # -- driving -----------------------------------------------------------------------------
@@ -196,6 +199,12 @@ class VLoop(asyncio.BaseEventLoop):
             return None
         if how == "ok":
             protocol = factory()
+            if protocol is None:
+                # what asyncio does with a factory that returns None: connection_made fails, the
+                # socket is closed again and the awaiting coroutine gets the AttributeError
+                fut.set_exception(AttributeError("'NoneType' object has no attribute 'connection_made'"))
+                self.run_ready()
+                return None
             transport = FakeAsyncTransport(self, protocol, kind)
             self.live_links.add(transport)
             self.links_made.append(transport)
